@@ -20,9 +20,9 @@ INFO = {
         'quick': {'counters': {'pairs': 300, 'target_blocks_checked': 10000, 'incon_transfers': 250, 'model_transfers': 80,
                                'above_surface_corrections': 50, 'self_mappings': 250},
                   'seen': {'atmosphere_combination': 9, 'incon_atmosphere_branch': 5}, 'nontrivial': 250},
-        'thorough': {'counters': {'pairs': 1400, 'target_blocks_checked': 100000, 'incon_transfers': 1000, 'model_transfers': 300,
-                                  'above_surface_corrections': 500, 'self_mappings': 300},
-                     'seen': {'atmosphere_combination': 9, 'incon_atmosphere_branch': 5}, 'nontrivial': 1000},
+        'thorough': {'counters': {'pairs': 5500, 'target_blocks_checked': 400000, 'incon_transfers': 4000, 'model_transfers': 1200,
+                                  'above_surface_corrections': 2000, 'self_mappings': 1200},
+                     'seen': {'atmosphere_combination': 9, 'incon_atmosphere_branch': 5}, 'nontrivial': 4000},
     },
     'watchdog_s': {'quick': 1200, 'thorough': 5400},
     'assumptions': ['pairs are generated so that no target column / layer centre is equidistant (within 1e-6 relative) from two source candidates',
@@ -33,7 +33,7 @@ INFO = {
 def plan(tier, seed):
     if tier == 'quick':
         return [{'n': 60} for _ in range(6)]
-    return [{'n': 90} for _ in range(16)]
+    return [{'n': 400} for _ in range(16)]
 
 
 # -- pairs ----------------------------------------------------------------------------------------
